@@ -6,6 +6,13 @@ mutable after it became a right-hand side) is modelled, not ignored.
 """
 import copy
 
+def vkey(v):
+    """domain values are compared the way Python compares them (1 == True == 1.0): numbers by value, the rest by repr"""
+    if isinstance(v, (bool, int, float)):
+        return 'num:' + repr(float(v))
+    return repr(v)
+
+
 NL = ['A', 'B', 'C']
 ELN = ['e0', 'e1', 'e2', 'e3']
 TYPES = [(), ('A',), ('B',), ('A', 'B'), ('A', 'A'), ('B', 'A', 'C')]
@@ -31,7 +38,7 @@ def s_domain(d):
     import math
     cls = type(d).__name__
     if cls == 'FiniteDomain':
-        return ['finite', [repr(v) for v in d.values]]
+        return ['finite', [vkey(v) for v in d.values]]
     if cls == 'RangeDomain':
         return ['range', d.size()]
     return [cls, None if math.isinf(d.size()) else d.size()]
